@@ -45,8 +45,10 @@ CLAIMS = {
        "the last child of the next open record (or makes it the root), and is an error - attaching nothing - when nothing is open or "
        "the contexts differ; start_record opens one record.",
   note="The MIR checks model every callee by a symbolic result (e.g. eval_rule returns an arbitrary Result<Status,Error>), unroll loops "
-       "twice and treat unknown statements as havoc: they decide the aggregation logic of each function, not the callees. NOT covered: "
-       "the records written by filters and parameterised rule calls, whole-run well-nesting (only each single start / end step is decided), "
+       "twice and treat unknown statements as havoc: they decide the aggregation logic of each function, not the callees. Also decided: "
+       "the record hook of a parameterised rule call rebuilds only the RuleCheck of the rule the call names and keeps its name and status "
+       "(only the message may change); the per-value records of `empty` on a variable / filter carry the final (negated) status. NOT covered: "
+       "the records written by filters, whole-run well-nesting (only each single start / end step is decided), "
        "the JSON rendering.",
   design="4/C02"),
  "C03": dict(
@@ -62,8 +64,10 @@ CLAIMS = {
        "NotComparable and unresolved operands are returned unchanged, the operands reach the operator in order, and without the flag the "
        "result is returned as is. A failed list-in outcome under the flag: every element of the left list is looked up in the old difference, the new "
        "difference is exactly the elements found on the right, Success iff it is empty. Parser side: the access-clause builder stores "
-       "negation = 'a prefix not was parsed' and the (operator, operator-level not) pair as parsed, neither folded into the other. The "
-       "reverse-diff arithmetic of QueryIn outcomes is NOT decided.",
+       "negation = 'a prefix not was parsed' and the (operator, operator-level not) pair as parsed, neither folded into the other. A failed "
+       "query-in outcome under the flag: new difference = reverse_diff(old difference, one operand list), Success iff empty; reverse_diff "
+       "keeps exactly the elements not in the old difference. The clause evaluator hands binary_operation the clause's OWN operator and the "
+       "flag `operator-level not XOR prefix not`, nothing else.",
   design="4/C03"),
  "C04": dict(
   text="Bounded model checking that the real CNF combinator returns the same status for a CNF and for any permutation of its "
@@ -71,7 +75,7 @@ CLAIMS = {
        "vectors; plus commutativity/associativity of the file-status combination.",
   note="History dimension: decided at MIR level only as 'memo consistency' of RootScope::rule_status, RootScope::resolve_variable and "
        "BlockScope::resolve_variable (what is stored in the cache is the value returned, on every path; callees havoced, opaque values "
-       "tracked by identity) plus the order-free fold of eval_rules_file and the named-rule status rule (RootScope::rule_status, <=2 definitions: the cached status if "
+       "tracked by identity) plus root_scope's name -> definitions table (every definition appended under its own name), the order-free fold of eval_rules_file and the named-rule status rule (RootScope::rule_status, <=2 definitions: the cached status if "
        "present, else the definitions of that name are evaluated in order through eval_rule and the first status that is not SKIP "
        "decides, SKIP if all are; the result is stored under that name and returned). NOT covered: the traversal that fills those caches, key "
        "capture (add_variable_capture_key), parameterised rules.",
@@ -170,7 +174,8 @@ CLAIMS = {
        "converted under `path/i` with i its 0-based position, results appended in order; a map entry's value is converted under "
        "`path/<its key>` and stored under that key, the key record carries the key's own location; the map carries the map's location; "
        "a BadValue or a failing recursive conversion is an error; build_data_file hands the loader the file's FULL text (not a trimmed "
-       "copy), so marks are positions in the file.",
+       "copy), so marks are positions in the file; in the query dispatcher a key taken from a variable that is not found in a map "
+       "is reported as unresolved AT THAT MAP (traversed_to = the map).",
   note="Plus Kani/CBMC on the pointer string itself: Path::extend_str on pointers of 0..2 bytes and keys of 0..2 bytes (symbolic "
        "ASCII, any line/col) returns pointer + '/' + key byte for byte - also for the EMPTY key - and keeps the position; "
        "with_location replaces the position and keeps the pointer; extend_usize renders every index < 100 in decimal (and, on MIR, always "
